@@ -81,6 +81,8 @@ impl FmtFlags {
     }
 
     pub fn from_raw(flags: usize) -> Self {
-        FmtFlags(flags)
+        // only the defined bits: the raw value travels as a formatter width,
+        // which must stay small (a hand-made #fmt tag can hold any integer)
+        FmtFlags(flags & (FMT_BASE_MASK | FMT_PREFIX_BIT | FMT_TAGS_BIT | FMT_FITSCREEN_BIT | FMT_UPCASE_BIT))
     }
 }
